@@ -25,6 +25,7 @@ func TestC13_Boosts(t *testing.T) {
 	rapid.Check(t, func(t *rapid.T) {
 		cmds, cls := gen.DB(t, gen.CmdOpts{Platforms: true}, []int{0, 1, 3, 10, 1})
 		db := gen.Load(t, cmds)
+		warmUp(t, db, cmds)
 		q, qc := gen.Query(t, cmds, []gen.QueryClass{"vocab", "vocab", "vocab", "nlp", "nlp", "mixed", "typo", "long"})
 		opt := gen.Options(t, gen.OptSpec{N: len(cmds), BigLimit: true, NoBoosts: true})
 		toks := gen.Tokens(cmds)
